@@ -22,6 +22,10 @@ DESIGN_REF = "DESIGN.md section 5, C03"
 
 def run(ctx):
     ctx.cov["rule"] = "structurally enumerated frames per (scan, configuration); distinct = (configuration, frame) pairs; all are non-trivial (each is judged by ReplyShape)"
+    # the socket life cycle: as found, frames queued between bind and filter attach bypass the filter (known finding F14);
+    # with a drain on attach the model satisfies FilteredOnly
+    ctx.tlc_mc("AfpacketSource", "MC_Afpacket_asfound", workers=2, timeout=300, expect_violation="FilteredOnly")
+    ctx.tlc_mc("AfpacketSource", "MC_Afpacket_drain", workers=2, timeout=300)
     binary = ctx.go_build_test("./command")
     trace = os.path.join(ctx.scratch, "c03-trace.ndjson")
     rc, out = ctx.go_run_test(binary, "^TestVfReplyShape$", env={"VF_OUT": trace, "VERIF_SEED": ctx.seed, "VERIF_TIER": ctx.tier}, timeout=2400)
@@ -55,5 +59,5 @@ def run(ctx):
     for e in events[:2]:
         ctx.sample({k: (v if k != "bytes" else v[:70]) for k, v in e.items()})
     # socket-level tier: the filter / processor wiring of every packet command on a real AF_PACKET socket with kernel BPF, per chunk
-    n3, rej = wt.run_wire(ctx, select=lambda s: s["expect"]["kind"] == "packet" and s["inject"], label="c03w", focus="reply")
+    n3, rej = wt.run_wire(ctx, select=lambda s: s["expect"]["kind"] == "packet" and (s["inject"] or s.get("flood")), label="c03w", focus="reply")
     wt.report(ctx, "C03", rej)
